@@ -294,6 +294,7 @@ pub mod token {
         //@ ensures count: r == 1 + self.blocks@.len()
         //@end
         //@extract biscuit-auth/src/token/mod.rs :: impl Biscuit :: fn block
+        //@ ensures decoded: r is Ok ==> (index == 0 ==> Ok::<Block, error::Format>(r->Ok_0) == crate::format::convert::block_of(self.authority, ext_key(self.container.authority))) && (index > 0 ==> Ok::<Block, error::Format>(r->Ok_0) == crate::format::convert::block_of(self.blocks@[index - 1], ext_key(self.container.blocks@[index - 1])))
         //@ requires rep: self.rep()
         //@ requires len: self.blocks@.len() < usize::MAX
         //@ closure 0 returns PublicKey
@@ -503,6 +504,7 @@ pub mod token {
             //@ requires len: self.blocks@.len() < usize::MAX
             //@end
             //@extract biscuit-auth/src/token/unverified.rs :: impl UnverifiedBiscuit :: fn block
+            //@ ensures decoded: r is Ok ==> (index == 0 ==> Ok::<Block, error::Format>(r->Ok_0) == crate::format::convert::block_of(self.authority, ext_key(self.container.authority))) && (index > 0 ==> Ok::<Block, error::Format>(r->Ok_0) == crate::format::convert::block_of(self.blocks@[index - 1], ext_key(self.container.blocks@[index - 1])))
             //@ requires rep: self.rep()
             //@ requires len: self.blocks@.len() < usize::MAX
             //@ closure 0 returns PublicKey
@@ -730,3 +732,4 @@ pub mod tspec {
 //@canary authority-next-key-is-root :: token::Biscuit::new_with_rng :: &KeyPair::new_with_rng(builder::Algorithm::Ed25519, rng), ==>> root,
 //@canary builder-keys-swapped :: token::builder::biscuit::BiscuitBuilder::build_with_key_pair :: Biscuit::new_with_key_pair(self.root_key_id, root, next, symbols, authority_block) ==>> Biscuit::new_with_key_pair(self.root_key_id, next, root, symbols, authority_block)
 //@canary from-uses-legacy-mode :: token::Biscuit::from :: Biscuit::from_with_symbols(slice.as_ref(), key_provider, default_symbol_table()) ==>> { let container = SerializedBiscuit::unsafe_from_slice(slice.as_ref(), key_provider).map_err(error::Token::Format)?; Biscuit::from_serialized_container(container, default_symbol_table()) }
+//@canary unverified-block-keys-overwritten :: token::unverified::UnverifiedBiscuit::block :: Ok(block)\n    } ==>> let mut block = block; block.symbols.public_keys = self.symbols.public_keys.clone(); Ok(block)\n    }
